@@ -147,7 +147,8 @@ Definition handle_inlay_hints (s : gstate) (key : string) : res (list string * n
 
 (* ---------- textDocument/documentSymbol ------------------------------------------------------------- *)
 
-Fixpoint spaces (n : nat) : string := match n with O => "" | S k => "  " +++ spaces k end.
+(* the indentation of nested_render (extensions.rs:223) is two EM SPACEs (U+2003) per level *)
+Fixpoint spaces (n : nat) : string := match n with O => "" | S k => "  " +++ spaces k end.
 
 (* NodePath::to_nested_symbol / nested_render (extensions.rs:213-258): name, uri, line *)
 Definition nested_symbol (base : string) (s : gstate) (p : list nat) : res (string * string * nat) :=
